@@ -593,3 +593,66 @@ Example ast_workspace_example :
   PyMini.run prog 0 2 ["Workspace"; "get_text_document"] (Some (ws_val cf VNone VNone s1)) [uri_val 6] =
     Ok (disk_val cf 6).
 Proof. cbv zeta. repeat split; vm_compute; reflexivity. Qed.
+
+(* ==================================================================================== *)
+(* update_notebook_document.  It works on the stored notebook through an alias            *)
+(* (`notebook = self._notebook_documents[uri]`) and on its cells through an index dict of *)
+(* aliases; in PyMini these locals are PATHS into self (Base/PyMini.v), and gen_ast.py    *)
+(* checks statically that the paths stay valid.                                           *)
+
+(* ---------- the index of the cells by document ---------- *)
+
+(* position of the LAST cell with document d *)
+Fixpoint last_index (d : N) (cells : list nbcell) : option nat :=
+  match cells with
+  | [] => None
+  | c :: r => match last_index d r with
+              | Some i => Some (S i)
+              | None => if (c_doc c =? d)%N then Some O else None
+              end
+  end.
+
+Lemma upd_last_cell_spec d cells :
+  upd_last_cell d cells =
+  match last_index (c_doc d) cells with
+  | Some i => Some (list_set cells i (set_cell_data (nth i cells d) d))
+  | None => None
+  end.
+Proof.
+  induction cells as [|c r IH]; [reflexivity|]. cbn [upd_last_cell last_index]. rewrite IH.
+  destruct (last_index (c_doc d) r) as [i|]; [reflexivity|].
+  destruct (c_doc c =? c_doc d)%N; reflexivity.
+Qed.
+
+(* the association list {document: index} that the dict comprehension builds, later cells winning *)
+Fixpoint build_index (cells : list nbcell) (i : Z) (acc : list (N * Z)) : list (N * Z) :=
+  match cells with
+  | [] => acc
+  | c :: r => build_index r (i + 1) (aset (c_doc c) i acc)
+  end.
+
+Lemma build_index_nodup cells : forall i acc, NoDup (map fst acc) -> NoDup (map fst (build_index cells i acc)).
+Proof. induction cells as [|c r IH]; intros i acc H; [exact H|]. cbn [build_index]. apply IH, aset_nodup, H. Qed.
+
+Lemma build_index_get d cells : forall i acc,
+  aget d (build_index cells i acc) =
+  match last_index d cells with
+  | Some j => Some (i + Z.of_nat j)
+  | None => aget d acc
+  end.
+Proof.
+  induction cells as [|c r IH]; intros i acc; [reflexivity|]. cbn [build_index last_index]. rewrite IH.
+  destruct (last_index d r) as [j|].
+  - f_equal. lia.
+  - rewrite aget_aset, N.eqb_sym. destruct (c_doc c =? d)%N; [f_equal; lia | reflexivity].
+Qed.
+
+Lemma index_dict_cells base cells : forall i acc, NoDup (map fst acc) ->
+  index_dict base "document" (map cell_val cells) i (items (fun _ j => mk_path (base ++ [VInt j])) acc) =
+  Ok (items (fun _ j => mk_path (base ++ [VInt j])) (build_index cells i acc)).
+Proof.
+  induction cells as [|c r IH]; intros i acc H; [reflexivity|]. cbn [map index_dict build_index].
+  unfold cell_val at 1. cbn [get String.eqb Ascii.eqb Bool.eqb].
+  rewrite (dict_set_items (fun _ j => mk_path (base ++ [VInt j])) (c_doc c) i acc H).
+  apply IH, aset_nodup, H.
+Qed.
